@@ -196,6 +196,28 @@ fn main() {
             check(prop, &tier, runs)
         }
         "selftest" => selftest(),
+        "traces" => {
+            // axsim traces <world> <prop> <runs>: one line per run, for the cross-process determinism test
+            let world = args.get(2).cloned().unwrap_or_default();
+            let prop = engine::ALL_PROPS.iter().find(|p| Some(**p) == args.get(3).map(|s| s.as_str())).copied().unwrap_or_else(|| usage());
+            let runs: u64 = args.get(4).and_then(|s| s.parse().ok()).unwrap_or(200);
+            let seed: u64 = std::env::var("VERIF_SEED").ok().and_then(|s| s.parse().ok()).unwrap_or(1);
+            let known = Known::load();
+            let v = match world.as_str() {
+                "G" => engine::dump_traces::<worlds::g::WorldG>(prop, seed, runs, &known),
+                "T" => engine::dump_traces::<worlds::t::WorldT>(prop, seed, runs, &known),
+                "S" => engine::dump_traces::<worlds::s::WorldS>(prop, seed, runs, &known),
+                "O" => engine::dump_traces::<worlds::o::WorldO>(prop, seed, runs, &known),
+                "I" => engine::dump_traces::<worlds::i::WorldI>(prop, seed, runs, &known),
+                "C" => engine::dump_traces::<worlds::c::WorldC>(prop, seed, runs, &known),
+                "U" => engine::dump_traces::<worlds::u::WorldU>(prop, seed, runs, &known),
+                _ => usage(),
+            };
+            for (i, s, h) in v {
+                println!("{} {} {:016x}", i, s, h);
+            }
+            0
+        }
         "replay" => {
             if args.len() < 3 {
                 usage();
